@@ -48,10 +48,18 @@ pub fn eval(expr: Node) -> Result<Complex<f64>, Box<dyn error::Error>> {
         Abs(sub_expr) => Ok(Complex::new(eval(*sub_expr)?.norm(), 0.0)),
         Sin(sub_expr) => Ok(eval(*sub_expr)?.sin()),
         Cos(sub_expr) => Ok(eval(*sub_expr)?.cos()),
-        Tan(sub_expr) => Ok(eval(*sub_expr)?.tan()),
+        // sin/cos rather than Complex::tan(): its (sin 2x + i sinh 2y) / (cos 2x + cosh 2y) cancels in the
+        // denominator next to a pole (tan(1.5707) came out 2.5e-9 off, tan(4.7125) 2.1e-9)
+        Tan(sub_expr) => {
+            let z = eval(*sub_expr)?;
+            Ok(z.sin() / z.cos())
+        }
         Sinh(sub_expr) => Ok(eval(*sub_expr)?.sinh()),
         Cosh(sub_expr) => Ok(eval(*sub_expr)?.cosh()),
-        Tanh(sub_expr) => Ok(eval(*sub_expr)?.tanh()),
+        Tanh(sub_expr) => {
+            let z = eval(*sub_expr)?;
+            Ok(z.sinh() / z.cosh())
+        }
         Asin(sub_expr) => Ok(eval(*sub_expr)?.asin()),
         Acos(sub_expr) => Ok(eval(*sub_expr)?.acos()),
         Atan(sub_expr) => Ok(eval(*sub_expr)?.atan()),
